@@ -22,13 +22,14 @@ PROP = {
         "retention period = 30 s as the statement's quantifier says; it is not read from the code. At exactly request+30 s, and later, the pinned version, the current one or any version created in between is accepted (statement silent); nothing else, in particular never the empty fallback",
         "a reload counts as having happened iff the accessor call reported success; revert restores the content of the last policies file that was read successfully (with / without its diagnosis plugins)",
         "versions are compared by content (marker, presence of diagnosis plugins), not by pointer: two versions with identical content are interchangeable for the statement",
-        "the look-up key is re-stated from routing/messages_handler.go and runner/diagnosis_worker.go (config.TxnID(args.ID) on request, response and diagnosis task); the accessor-level units use that re-statement; the unit TestMessageHandlersE2E drives the unexported handlers themselves through routing.Handler of a policy-mode HandlingDataManager (request and response messages of retried attempts whose id differs from the sequence id, reloads in between), the diagnosis worker's look-up stays re-stated",
+        "the look-up key is re-stated from routing/messages_handler.go and runner/diagnosis_worker.go (config.TxnID(args.ID) on request, response and diagnosis task); the accessor-level units use that re-statement; the unit TestMessageHandlersE2E drives the unexported handlers themselves through routing.Handler of a policy-mode HandlingDataManager (request and response messages of retried attempts whose id differs from the sequence id, reloads in between), the diagnosis worker's look-up is exercised by the unit TestDiagnosisWorkerVersions (real runner.DiagnosisWorker, dispatcher, plugins and HAR exporter on the real clock; the worker starts at a generated point of the history so that finished transactions queue up; every version declares the HAR diagnosis for its own subset of three endpoints with or without obfuscation, and the exported record of a transaction - present or not, obfuscated or not - must be that of the version current at its request; records are awaited up to 20 s)",
         "burst interleavings are whatever the Go scheduler produces; unsynchronised access that only a race detector sees belongs to C18",
     ],
     "units": [
         {"pkg": "c11", "test": "TestHistories", "quick": 3000, "thorough": 20000, "shards": 16},
         {"pkg": "c11", "test": "TestBurst", "quick": 1500, "thorough": 10000, "shards": 16},
         {"pkg": "c11", "test": "TestBoundaryGrid", "kind": "plain"},
+        {"pkg": "c11", "test": "TestDiagnosisWorkerVersions", "quick": 300, "thorough": 6000, "shards": 8, "quick_shards": 2},
         {"pkg": "c11", "test": "TestMessageHandlersE2E", "quick": 1500, "thorough": 30000, "shards": 1},
     ],
     "technique": ("stateful property-based testing (rapid) of the real accessor and its two vacuum goroutines under a deterministic virtual clock (hand-shake on every "
